@@ -10,7 +10,7 @@ SEED=/verif/seeded/$ID
 S=/tmp/sv_$ID
 rm -rf $S; mkdir -p $S
 git -C /repo worktree add -q --detach $S/repo HEAD || exit 2
-git -C $S/repo apply $SEED/patch.diff || { echo "patch does not apply to current /repo HEAD"; git -C /repo worktree remove --force $S/repo; exit 2; }
+git -C $S/repo apply $SEED/patch.diff 2>/dev/null || (cd $S/repo && patch -p1 -F3 -s < $SEED/patch.diff) || { echo "patch does not apply to current /repo HEAD"; git -C /repo worktree remove --force $S/repo; exit 2; }
 rsync -a --exclude .git --exclude 'harness/target' --exclude '.work' --exclude replays --exclude seeded /verif/ $S/verif/
 # share nothing mutable: lean/.lake is copied (small); harness/target starts cold unless a warm cache exists
 grep -rl '/repo' $S/verif/harness --include=Cargo.toml | xargs sed -i "s#/repo/#$S/repo/#g"
